@@ -595,7 +595,13 @@ def run(tier):
                 jb.body.path, 'SPEC-LAYOUT(JoinAccept)', instance='JoinAccept: MHDR 0x20 | JoinNonce | NetID | DevAddr | DLSettings | RxDelay')
     cf = [x for x in wr[6:]]
     types = sorted(x[3][1] for x in cf if x[0] == 'byte' and x[1] == 28 and x[3][0] == 'const')
-    res.require(types == [0, 1] and any(x[0] == 'range' and (x[1], x[2]) == (13, 22) for x in cf), 'C01:JoinAccept::build_into:cflist', 'CFList is not written at 13.. with its type byte (0 / 1) at 28: %s' % [(x[0], x[1], x[2]) for x in cf],
+    # the 16 CFList bytes copied wholesale from a value assembled elsewhere (a helper returning the wire form): the layout is
+    # then not a fact of this function's stores; it is recorded as not judged rather than reported
+    wholesale = [x for x in cf if x[0] == 'range' and (x[1], x[2]) == (13, 29)]
+    cf_delegated = len(wholesale) == 1 and not any(x[0] == 'byte' and 13 <= x[1] < 29 for x in cf) and not any(x[0] == 'range' and x is not wholesale[0] and isinstance(x[1], int) and 13 <= x[1] < 29 for x in cf)
+    if cf_delegated:
+        res.ok('SPEC-LAYOUT(CFList)', 'CFList at bytes 13..29 copied as one 16-byte value built outside build_into (%s): layout not judged here' % term_str(wholesale[0][3])[:60])
+    res.require(cf_delegated or (types == [0, 1] and any(x[0] == 'range' and (x[1], x[2]) == (13, 22) for x in cf)), 'C01:JoinAccept::build_into:cflist', 'CFList is not written at 13.. with its type byte (0 / 1) at 28: %s' % [(x[0], x[1], x[2]) for x in cf],
                 jb.body.path, 'SPEC-LAYOUT(CFList)', instance='CFList at bytes 13..29: type 0 = five 3-byte frequencies, type 1 = 9-byte mask, type byte last')
     # coverage: with a CFList every byte 13..29 is written on either arm (a reused buffer must not shine through)
     raw = buffer_script(jb, lambda t: term_contains(t, lambda y: y == ('param', jbuf)))
@@ -640,7 +646,7 @@ def run(tier):
         if okd:
             dyn_cov |= set(range(13, 13 + 3 * n_el))
     want_cov = set(range(13, 29))
-    res.require(fixed_cov == want_cov and okd and dyn_cov == want_cov, 'C01:JoinAccept::build_into:cflist-coverage',
+    res.require(cf_delegated or (fixed_cov == want_cov and okd and dyn_cov == want_cov), 'C01:JoinAccept::build_into:cflist-coverage',
                 'with a CFList not every byte 13..29 is written: fixed arm misses %s, dynamic arm misses %s' % (sorted(want_cov - fixed_cov), sorted(want_cov - dyn_cov)), jb.body.path,
                 'COVERAGE(every output byte written)', instance='JoinAccept CFList: bytes 13..29 fully written on both arms (mask + zero RFU + type; 5 x 3-byte frequencies + type)')
     order = [x for x in sc if x[0] == 'call']
